@@ -816,6 +816,11 @@ impl CanonicalizeContext {
 					// people tend to set them in a non-italic font and software makes that 'mtext'
 					CanonicalizeContext::make_roman_numeral(mathml);
 				}
+				if (first_char == '-' || first_char == '\u{2212}') && chars.as_str().is_empty() {
+					// just a minus sign that was marked up as a number -- it is an operator
+					set_mathml_name(mathml, "mo");
+					return self.clean_mathml(mathml);
+				}
 				if first_char == '-' || first_char == '\u{2212}' {
 					let doc = mathml.document();
 					let mo = create_mathml_element(&doc, "mo");
